@@ -16,6 +16,7 @@ import (
 	"sort"
 	"strconv"
 	"strings"
+	"unicode"
 
 	"golang.org/x/tools/go/packages"
 	"golang.org/x/tools/go/ssa"
@@ -1600,6 +1601,17 @@ func tbC15Legacy(c *Ctx, p *packages.Package, attrs *types.Named) {
 		seeds[k] = true
 	}
 	universe := tbConstGroup(p, seeds)
+	// a key is a name: constants of the group that hold punctuation only (separators kept next to the keys) are not
+	// keys
+	{
+		var keysOnly []*types.Const
+		for _, k := range universe {
+			if strings.IndexFunc(constant.StringVal(k.Val()), func(r rune) bool { return unicode.IsLetter(r) || unicode.IsDigit(r) }) >= 0 || seeds[k] {
+				keysOnly = append(keysOnly, k)
+			}
+		}
+		universe = keysOnly
+	}
 	nameOf := map[string]string{}
 	for _, k := range universe {
 		v := constant.StringVal(k.Val())
